@@ -6,10 +6,10 @@ import F1Verif.Generated.Facts
 import F1Verif.Expected
 namespace F1.Props.FactsC20
 
+-- (active_Run, active_Setup: re-proved semantically on the regenerated MiniGo programs, see Props/Refine*.lean)
+
 theorem fact_f1_CombineScenarios : F1.Generated.skel_f1_CombineScenarios = F1.Expected.skel_f1_CombineScenarios := by rfl
 theorem fact_t_Time : F1.Generated.skel_t_Time = F1.Expected.skel_t_Time := by rfl
-theorem fact_active_Run : F1.Generated.skel_active_Run = F1.Expected.skel_active_Run := by rfl
-theorem fact_active_Setup : F1.Generated.skel_active_Setup = F1.Expected.skel_active_Setup := by rfl
 theorem fact_t_handlePanic : F1.Generated.skel_t_handlePanic = F1.Expected.skel_t_handlePanic := by rfl
 theorem fact_t_FailNow : F1.Generated.skel_t_FailNow = F1.Expected.skel_t_FailNow := by rfl
 
